@@ -42,10 +42,12 @@ def cases(tier):
                     for gaps in A.words(GAPS, n - 1):
                         ts = A.timestamps(first, gaps, tfsec, b)
                         raw = [A.shape(WORD[i % 8], {"tick": 1.0, "offset": 0}) + (t.isoformat(),) for i, t in enumerate(ts)]
-                        for host in ("cm", "ind", "cm+fill"):
+                        for host in ("cm", "ind", "cm+fill", "cm-iso"):
                             for supply in ("ctor", "append1", "appendall"):
                                 if host == "ind" and supply == "appendall":
                                     continue
+                                if host == "cm-iso" and supply == "ctor":
+                                    continue  # dict candles with ISO-string timestamps only enter through append
                                 yield (tf, base, first, gaps, host, supply), raw
 
 
@@ -55,6 +57,15 @@ def execute(raw, tf, host, supply):
     from ..drivers import fresh
 
     k = len(raw) if supply == "ctor" else 0
+    if host == "cm-iso":
+        obj = CandleManager([], timeframe=tf)
+        rows = [{"open": o, "high": h, "low": l, "close": c, "volume": v, "timestamp": t} for o, h, l, c, v, t in raw]
+        if supply == "appendall":
+            obj.append(rows)
+        else:
+            for r in rows:
+                obj.append(r)
+        return view(obj.candles)
     if host.startswith("cm"):
         obj = CandleManager(fresh(raw[:k]), timeframe=tf, timeframe_fill=host.endswith("+fill"))
     else:
